@@ -340,6 +340,9 @@ def setAlreadyRun (t : Step) (isCheckout : Bool) (skipped : Bool) : M Unit := do
 
 /-! ## `_cookCheckoutStep` (normal mode) -/
 
+/-- the digest `False` that marks a recorded SCM directory as not trustworthy -/
+def invalidDigest : Digest := "!invalid"
+
 def lookupScm (l : List (Dir × Digest)) (d : Dir) : Option Digest :=
   match l with
   | [] => none
@@ -356,6 +359,10 @@ def atticLoop (E : Env) (cfg : Cfg) (p : Path) (new : List (Dir × Digest)) (old
   | [], keep => pure keep
   | (d, g) :: rest, keep => do
     if some g ≠ lookupScm new d then do
+      -- invalidate first: a kill while switching / moving must not leave a trusted directory
+      whenM (Consts.C01.scmInvalidatesFirst && g ≠ invalidDigest)
+        (prim (.setDir p (.co (keep.map fun x => if x.1 = d then (d, invalidDigest) else x) oldVid oldBo))
+          (fun s => s.setDir p (.co (keep.map fun x => if x.1 = d then (d, invalidDigest) else x) oldVid oldBo)))
       let st ← getSt
       -- `os.path.exists(scmPath)`; the SCM directory "." is the workspace itself
       if (if d = "." then (st.disk p).isSome else E.hasDir ((st.disk p).getD emptyC) d) then do
@@ -582,7 +589,9 @@ def expectedPackageCalls : List String :=
 `--build-only` branch (not modelled), then the attic loop, then the run branch -/
 def expectedCheckoutCalls : List String :=
   ["_constructDir", "resetWorkspaceState", "_runShell", "setDirectoryState", "hashWorkspace",
-   "setAtticDirectoryState", "setDirectoryState", "setDirectoryState", "rename", "setAtticDirectoryState",
+   "setAtticDirectoryState", "setDirectoryState"] ++
+  (if Consts.C01.scmInvalidatesFirst then ["setDirectoryState"] else []) ++
+  ["setDirectoryState", "rename", "setAtticDirectoryState",
    "setDirectoryState", "setDirectoryState", "setResultHash", "_runShell", "setDirectoryState", "setInputHashes",
    "setVariantId", "hashWorkspace", "_generateAudit", "setResultHash"]
 
